@@ -20,7 +20,8 @@ Case kinds
           harness' own language enumeration); (2) real samplers, both back-ends: chi-square of
           the empirical frequencies against the product of rule weights, same seed => same sequence.
   gu    : the same for ProbUGrammar (UCFG.from_CFG, UCFG.from_DFTA of constraints, several start
-          symbols and several alternatives per rule), model PS.Sampler.sampleU.
+          symbols and several alternatives per rule; hand-written "comb" UCFGs of 5-11 non-terminals
+          in which every sampler is used exactly once per program), model PS.Sampler.sampleU.
 """
 import collections
 import contextlib
@@ -235,7 +236,8 @@ def replay_margin(ws):
         if avg != 0 and not dyadic(w[l] / avg):
             exact = False  # proba = w/avg is rounded: compared with a tolerance
         w[m] = w[m] + w[l] - avg
-        margin = min(margin, abs(w[m] - avg))
+        if small or large:   # the last remaining index always holds exactly avg: either list will do
+            margin = min(margin, abs(w[m] - avg))
         (large if w[m] >= avg else small).append(m)
     return exact, margin
 
@@ -286,6 +288,41 @@ def gen_grammar_case(rng, kind, tier):
     return c
 
 
+def gen_hand_case(rng):
+    """a 'comb' UCFG written by hand: non-terminal 0 has the single rule root(NT_1 … NT_{m-1}); NT_i
+    either has two constant rules c_i | d_i ("r") or one unary rule f_i with the two alternatives
+    [A] | [B] ("a"); A and B (one constant each) come last.  Every sampler is used exactly once per
+    program, so two samplers that draw the same stream show up in the program frequencies."""
+    m = rng.randint(3, 9)
+    shape = [rng.choice("ra") for _ in range(m - 1)]
+    if rng.random() < 0.5 and m >= 9:
+        shape[0], shape[6] = "a", "r"
+    return {"kind": "gu", "ucfg": "hand", "shape": "".join(shape), "dsl": "hand", "request": "t", "depth": 3,
+            "weights": rng.choice(["uniform", "uniform", "random", "dyadic"]), "wseed": rng.randint(1, 10 ** 6),
+            "seed": rng.randint(1, 2 ** 31 - 1), "dseed": rng.randint(0, 10 ** 9), "ncalls": rng.randint(2, 6),
+            "backend": rng.choice(["native", "python"]), "copy": rng.random() < 0.3}
+
+
+def build_hand(case):
+    from synth.syntax import UCFG, Primitive, auto_type
+    from synth.syntax.type_system import PrimitiveType
+    T = PrimitiveType("t")
+    shape = case["shape"]
+    m = len(shape) + 1
+    N = [(T, i) for i in range(m + 2)]
+    A, B = N[m], N[m + 1]
+    root = Primitive("root", auto_type(" -> ".join(["t"] * m)))
+    rules = {N[0]: {root: [[N[i] for i in range(1, m)]]}}
+    for i, k in enumerate(shape, start=1):
+        if k == "r":
+            rules[N[i]] = {Primitive(f"c{i}", T): [[]], Primitive(f"d{i}", T): [[]]}
+        else:
+            rules[N[i]] = {Primitive(f"f{i}", auto_type("t -> t")): [[A], [B]]}
+    rules[A] = {Primitive("a", T): [[]]}
+    rules[B] = {Primitive("b", T): [[]]}
+    return UCFG({N[0]}, rules, clean=False)
+
+
 def build_cfg(case):
     from synth.syntax import DSL, CFG, auto_type
     dsl = DSL(auto_type(DSL_SPECS[case["dsl"]]))
@@ -323,6 +360,11 @@ def prog_tree(p, syms):
 
 def tree_key(t):
     return "(" + " ".join([str(t[0])] + [tree_key(k) for k in t[1:]]) + ")"
+
+
+def key_show(k, syms):
+    from harness import sexp
+    return show_tree(parse_tree(sexp.parse(k)), syms)
 
 
 def parse_tree(x):
@@ -392,9 +434,11 @@ def gen(rng, i, tier):
                 "N": 50000}
     if r < 0.78:
         return gen_value(rng)
-    if r < 0.91:
+    if r < 0.90:
         return gen_grammar_case(rng, "gdet", tier)
-    return gen_grammar_case(rng, "gu", tier)
+    if r < 0.96:
+        return gen_grammar_case(rng, "gu", tier)
+    return gen_hand_case(rng)
 
 
 VT = ["int", "bool", "str"]
@@ -460,6 +504,17 @@ def shrink(case):
         if case.get("via") != "direct":
             c = dict(case)
             c["via"] = "direct"
+            yield c
+    elif k == "gu" and case.get("ucfg") == "hand":
+        sh = case["shape"]
+        for j in range(len(sh)):
+            if len(sh) > 1:
+                c = dict(case)
+                c["shape"] = sh[:j] + sh[j + 1:]
+                yield c
+        if case["weights"] != "uniform":
+            c = dict(case)
+            c["weights"] = "uniform"
             yield c
     elif k in ("gdet", "gu"):
         if case["depth"] > 2:
@@ -848,6 +903,19 @@ def check_gdet(case, M):
         lang = language(rules, [(start, Fr(1))], limit=4000)
     except (OverflowError, RecursionError):
         lang = None
+    # ---- (0) what init_sampling hands to the alias samplers: rule weights and distinct seeds
+    RecordingSampler.log, RecordingSampler.script = [], []
+    with backend(RecordingSampler):
+        pg.init_sampling(case["seed"])
+    log = RecordingSampler.log
+    want_w = [[float(pg.tags[S][P]) for P in pg.tags[S]] for S in nts]
+    if [w for w, _ in log] != want_w:
+        failures.append({"kind": "oracle", "what": "init_sampling: the alias sampler of a non-terminal is not built from the weights of its rules",
+                         "detail": f"{case['dsl']} {case['request']} depth {case['depth']}: {[w for w, _ in log][:3]} vs {want_w[:3]}"})
+    m_seeds = M.ask([Sym("c09.seeds"), case["seed"], len(nts), 0])
+    if [sd for _, sd in log] != [int(x) for x in m_seeds[0]]:
+        failures.append({"kind": "corr", "what": "init_sampling(seed): seeds of the alias samplers differ from the model (seed + i)",
+                         "detail": f"seed={case['seed']}: {[sd for _, sd in log][:6]}"})
     # ---- (1) scripted streams
     r = random.Random(case["dseed"])
     streams = [[r.randrange(len(rules[i])) for _ in range(60)] for i in range(len(nts))]
@@ -895,7 +963,7 @@ def check_gdet(case, M):
     # ---- (2) statistics with the real samplers
     stat = None
     if lang is not None and nprog <= 1500:
-        N = 20000 if nprog < 200 else 50000
+        N = 20000 if nprog < 300 else 50000
         cls = backend_class(case["backend"])
         pg2 = copy.deepcopy(pg)
         with backend(cls):
@@ -922,7 +990,7 @@ def check_gdet(case, M):
         elif pv < PVAL:
             top = sorted(lang, key=lambda k: -lang[k])[:4]
             failures.append({"kind": "oracle", "what": "program frequencies do not follow the grammar's probabilities (chi-square)",
-                             "detail": f"{who}: N={N} chi2={chi:.1f} df={df} p={pv:.2e}; " + "; ".join(f"{names.get(k, k)} freq={counts.get(k, 0) / N:.4f} prob={float(lang[k]):.4f}" for k in top)})
+                             "detail": f"{who}: N={N} chi2={chi:.1f} df={df} p={pv:.2e}; " + "; ".join(f"{key_show(k, syms)} freq={counts.get(k, 0) / N:.4f} prob={float(lang[k]):.4f}" for k in top)})
         for k, p in list(names.items())[:25]:
             ip = pg.probability(p)
             if abs(ip - float(lang[k])) > 1e-9 * max(1.0, float(lang[k])):
@@ -942,8 +1010,10 @@ def check_gu(case, M):
     import random
     import copy
     from synth.syntax import ProbUGrammar, UCFG
-    cfg = build_cfg(case)
-    if case.get("ucfg") == "dfta":
+    cfg = build_cfg(case) if case.get("ucfg") != "hand" else None
+    if case.get("ucfg") == "hand":
+        u = build_hand(case)
+    elif case.get("ucfg") == "dfta":
         from synth.filter.constraints.dfta_constraints import add_dfta_constraints
         try:
             u = UCFG.from_DFTA(add_dfta_constraints(cfg, [case["constraint"]], progress=False))
@@ -983,6 +1053,39 @@ def check_gu(case, M):
                 failures.append({"kind": "corr", "what": "tags[S][P] is not keyed by the alternatives of rules[S][P] in order", "detail": str(P)})
             row.append((syms.of(P), [([nid[x] for x in a], Fr(float(pu.tags[S][P][tuple(a)]))) for a in alts]))
         rules.append(row)
+    # what init_sampling hands to the alias samplers: weights and pairwise distinct seeds
+    RecordingSampler.log, RecordingSampler.script = [], []
+    with backend(RecordingSampler):
+        pu.init_sampling(case["seed"])
+    log = RecordingSampler.log
+    want_w, kinds = [], []
+    for S in nts:
+        want_w.append([sum(float(x) for x in pu.tags[S][P].values()) for P in pu.tags[S]])
+        kinds.append("rule")
+        for P in pu.tags[S]:
+            tot = sum(float(x) for x in pu.tags[S][P].values())
+            want_w.append([float(x) / tot if tot else float("nan") for x in pu.tags[S][P].values()])
+            kinds.append("alt")
+    want_w.append([float(x) for x in pu.start_tags.values()])
+    kinds.append("start")
+
+    def same_w(a, b):
+        return len(a) == len(b) and all((x != x and y != y) or abs(x - y) <= 1e-12 for x, y in zip(a, b))
+    if len(log) != len(want_w) or not all(same_w(a, b) for (a, _), b in zip(log, want_w)):
+        failures.append({"kind": "oracle", "what": "ProbUGrammar.init_sampling: an alias sampler is not built from the weights of its rules / alternatives / start symbols",
+                         "detail": f"{case['dsl']} {case['request']} {case.get('constraint')}: {[w for w, _ in log][:4]} vs {want_w[:4]}"})
+    else:
+        nrules = sum(1 for k in kinds if k == "alt")
+        ms = M.ask([Sym("c09.seeds"), case["seed"], len(nts), nrules])
+        rs, st, al = [int(x) for x in ms[1]], int(ms[2]), [int(x) for x in ms[3]]
+        want_seeds = []
+        for k in kinds:
+            want_seeds.append(rs.pop(0) if k == "rule" else (al.pop(0) if k == "alt" else st))
+        got_seeds = [sd for _, sd in log]
+        if got_seeds != want_seeds:
+            dup = len(set(got_seeds)) < len(got_seeds)
+            failures.append({"kind": "corr", "what": "ProbUGrammar.init_sampling(seed): seeds of the alias samplers differ from the model" + (" and two samplers share a seed (identical streams)" if dup else ""),
+                             "detail": f"seed={case['seed']}: {list(zip(kinds, got_seeds))[:8]} model {want_seeds[:8]}"})
     pu.init_sampling(case["seed"])
     starts_order = list(pu.start_tags.keys())   # the start sampler is built from start_tags.values()
     start_probs = [(nid[S], Fr(float(pu.start_tags[S]))) for S in pu.start_tags]
@@ -1035,7 +1138,7 @@ def check_gu(case, M):
     if lang is not None and abs(sum(lang.values()) - 1) > TOL:
         lang = None   # not a distribution (weights handed over unnormalised): nothing to compare with
     if lang is not None and nprog <= 1500:
-        N = 20000 if nprog < 200 else 50000
+        N = 20000 if nprog < 300 else 50000
         cls = backend_class(case["backend"])
         pu2 = copy.deepcopy(pu)
         with backend(cls):
@@ -1059,7 +1162,7 @@ def check_gu(case, M):
         elif pv < PVAL:
             top = sorted(lang, key=lambda k: -lang[k])[:4]
             failures.append({"kind": "oracle", "what": "ProbUGrammar: program frequencies do not follow the grammar's probabilities (chi-square)",
-                             "detail": f"{who}: N={N} chi2={chi:.1f} df={df} p={pv:.2e}; " + "; ".join(f"{names.get(k, k)} freq={counts.get(k, 0) / N:.4f} prob={float(lang[k]):.4f}" for k in top)})
+                             "detail": f"{who}: N={N} chi2={chi:.1f} df={df} p={pv:.2e}; " + "; ".join(f"{key_show(k, syms)} freq={counts.get(k, 0) / N:.4f} prob={float(lang[k]):.4f}" for k in top)})
         stat = {"N": N, "chi2": round(chi, 1), "df": df, "p": pv}
     maxalts = max(len(alts) for row in rules for _, alts in row)
     apps = sum(1 for t in i_trees if t and len(t) > 1)
@@ -1100,4 +1203,12 @@ def corpus():
         {"kind": "alias", "mode": "pow2", "w": ["1/2", "1/4", "1/8", "1/8"], "draws": half, "via": "direct"},
         {"kind": "stat", "mode": "unnorm", "w": ["2/1", "1/1", "1/1"], "seed": 7, "backend": "python", "via": "lexicon", "N": 50000},
         {"kind": "stat", "mode": "unnorm", "w": ["2/1", "1/1", "1/1"], "seed": 7, "backend": "native", "via": "lexicon", "N": 50000},
+        # C09-F3: start symbols indexed through a set (shows under PYTHONHASHSEED=1 after deepcopy)
+        {"kind": "gu", "dsl": "list", "request": "int list", "depth": 3, "weights": "random", "wseed": 13797, "seed": 486349287,
+         "dseed": 154126820, "ncalls": 12, "backend": "native", "ucfg": "dfta", "constraint": "(cons ^1 _)", "copy": True},
+        # C09-F4: alternative sampler of the 2nd non-terminal and rule sampler of the 8th shared a seed
+        {"kind": "gu", "ucfg": "hand", "shape": "arrrrrr", "dsl": "hand", "request": "t", "depth": 3, "weights": "uniform", "wseed": 1,
+         "seed": 5, "dseed": 3, "ncalls": 4, "backend": "native", "copy": False},
+        {"kind": "gu", "ucfg": "hand", "shape": "arrrrrr", "dsl": "hand", "request": "t", "depth": 3, "weights": "uniform", "wseed": 1,
+         "seed": 123, "dseed": 4, "ncalls": 4, "backend": "python", "copy": False},
     ]
